@@ -16,6 +16,7 @@ LEVEL_TEXT = ("Error-context discipline on the MIR: (a) wherever a statement han
               "(f) with_context keeps an existing statement context, wraps everything else, passes Cancelled through; (g) the pretty "
               "renderer reads the three stored locations.")
 LEVEL_NOTE = ("Not decided: that the cited locations are the right ones for every fault position as observed, and the rendered text.")
+LEVEL_TEXT += (" Every local binding in lazy mode goes through store.add (a thunk carrying the binding statement's context), on every successful path.")
 
 WC = r"ResultWithExecutionError<R>>::with_context$|ResultWithExecutionError::with_context$"
 
@@ -180,6 +181,19 @@ def run(prog, rep):
                 rep.check(canon_full(inner).lstrip("*") == "arg:exec.error_context" and "Into::into(" in di, "E2.x-d", "%s :: %s origin #%d" % (f.id, callee_fn(t)["def"].rsplit("::", 2)[-2], nd), sp_str(t["sp"]),
                           "debug info = exec.error_context", "deferred work is created with `%s` instead of the executing statement's context" % di[:100])
     rep.floor("E2.x-d", nd, 8, "deferred-work creation sites")
+    # a local variable always holds a thunk of its own: whatever is bound (also a bare reference to another variable, whose resolution
+    # can fail) is wrapped by store.add together with the binding statement's context, on every successful path
+    for nm in ("add_lazy", "set_lazy"):
+        fl = [g for g in prog.shape_fns() if g.name == nm and g.self_path == "tsg::ast::UnscopedVariable" and g.file.startswith("src/execution/lazy")]
+        if len(fl) != 1:
+            rep.violation("E2.x-d", "anchor-lost:UnscopedVariable::%s" % nm, "", "not found")
+            continue
+        g = fl[0]
+        adds = {b for b, t in g.body.calls() if is_callee(t, r"lazy::store::LazyStore::add$")}
+        fails = e2._failure_blocks(g.body)
+        skip = g.body.reach_from([0], avoid=adds | fails) & set(g.body.return_blocks())
+        rep.check(bool(adds) and not skip, "E2.x-d", "%s :: always through a thunk" % g.id, g.loc(), "every successful path wraps the value with store.add(value, error_context)",
+                  "%s can bind a value without creating a thunk for it: a failure of that value is reported (if at all) by whichever later statement reads the variable, not by this one" % nm)
     # evaluation side
     ev_sites = [("tsg::execution::lazy::statements::LazyStatement", "evaluate", r"Lazy\w+::evaluate$", r"^Into::into\(Clone::clone\(&\*\*upvar:_ref__stmt\.debug_info\)\)$", 4),
                 ("tsg::execution::lazy::store::LazyStore", "evaluate", r"store::Thunk::force$", r"^Into::into\(upvar:debug_info\.0\)$", 1),
